@@ -72,7 +72,7 @@ CLAIMS["C12"] = ("Aggregation and cut-through, proof-level (Verus, extracted tex
     "deaggregate, validity of the aggregate (needs the group equation of C01 plus libsecp256k1), compact-block conversion and hydration (thread-local random nonce, short ids via SipHash) are not decided.",
     VERUS_TB + "slice::swap via assume_specification (documented behaviour), sort/dedup helpers assumed as stated in the unit header; elements are abstract with a ghost commitment key.",
     "Verus contracts with a merge-state invariant and multiset lemmas on the extracted real functions", "6 C12")
-CLAIMS["C13"] = ('Proof-level (Verus, extracted text): with the feature on, an NRD kernel is refused iff the same excess has an index entry fewer than relative_height blocks below the block being applied, an accepted one is recorded, other variants are untouched (txhashset::apply_kernel_rules); NRDRelativeHeight accepts exactly 1..=10080 (Kani, all u64, in the C10 unit). Block::verify_kernel_lock_heights returns Ok iff no height-locked kernel has lock_height > block height, for any number of kernels (Verus loop invariant); BOUNDED stand-in (<= 3 kernels, Kani): NRD kernels need the flag and header version >= 4, body lock_height == max. Coinbase maturity (iterator chain over LMDB lookups), per-fork maintenance of the NRD index during rewind and the pool path are not decided.',
+CLAIMS["C13"] = ('Proof-level (Verus, extracted text): with the feature on, an NRD kernel is refused iff the same excess has an index entry fewer than relative_height blocks below the block being applied, an accepted one is recorded, other variants are untouched (txhashset::apply_kernel_rules); NRDRelativeHeight accepts exactly 1..=10080 (Kani, all u64, in the C10 unit). Block::verify_kernel_lock_heights returns Ok iff no height-locked kernel has lock_height > block height, for any number of kernels (Verus loop invariant); BOUNDED stand-in (<= 3 kernels, Kani): NRD kernels need the flag and header version >= 4, body lock_height == max. Pool side: Chain::verify_tx_lock_height admits a transaction iff its lock height is at most head height + 1. UTXOView::verify_coinbase_maturity refuses a spend unless the height is at least the maturity and the highest-position coinbase being spent lies within the output MMR size of the header `maturity` blocks below (the two iterator chains feeding it are assumed helpers). Per-fork maintenance of the NRD index during rewind and the pool path are not decided.',
     VERUS_TB + KANI_TB + "the NRD index is an uninterpreted most-recent-entry function.",
     'Verus contract on the extracted NRD rule + Kani bounded harness for block lock heights', "6 C13")
 CLAIMS["C14"] = ("The admission clauses, proof-level. (Verus, extracted text) TransactionPool::add_to_pool stores an entry in the stempool or txpool only if that entry -- after de-aggregation -- passed the kernel-variant check, "
